@@ -65,11 +65,24 @@ SKIP_LINE = re.compile(r'^\s*(//|#\[|net_trace!|net_debug!|net_log!|use |pub use
 
 
 def sh(cmd, cwd=None, env=None, timeout=3600):
+    # own session: a mutant can make a unit test spin for ever; on timeout the whole process group is killed
+    # (killing only `cargo` would leave the test binary running)
+    import signal
+    p = subprocess.Popen(cmd, cwd=cwd, env=env, stdout=subprocess.PIPE, stderr=subprocess.STDOUT, text=True, errors='replace',
+                         start_new_session=True)
     try:
-        p = subprocess.run(cmd, cwd=cwd, env=env, stdout=subprocess.PIPE, stderr=subprocess.STDOUT, timeout=timeout, text=True, errors='replace')
-        return p.returncode, p.stdout
-    except subprocess.TimeoutExpired as e:
-        return 124, (e.stdout or '') if isinstance(e.stdout, str) else ''
+        out, _ = p.communicate(timeout=timeout)
+        return p.returncode, out
+    except subprocess.TimeoutExpired:
+        try:
+            os.killpg(p.pid, signal.SIGKILL)
+        except OSError:
+            pass
+        try:
+            out, _ = p.communicate(timeout=10)
+        except Exception:
+            out = ''
+        return 124, out or ''
 
 
 def checks_for(path):
@@ -151,7 +164,7 @@ def worker(k, q, rq):
         lines[m['line'] - 1] = m['new']
         open(p, 'w').write('\n'.join(lines))
         try:
-            rc, out = sh(['cargo', 'test', '--offline', '--lib', '--quiet'], cwd=repo, env=env, timeout=1500)
+            rc, out = sh(['cargo', 'test', '--offline', '--lib', '--quiet'], cwd=repo, env=env, timeout=600)
             if rc != 0:
                 m['status'] = 'build' if 'could not compile' in out else 'tests'
             else:
